@@ -52,7 +52,8 @@ def run_tlc(component, module, cfg, workers=1, timeout=600, extra=(), env=None, 
         for name, text in (extra_files or {}).items():
             with open(os.path.join(work, name), 'w') as f:
                 f.write(text)
-        cmd = ['java', '-XX:+UseParallelGC' if workers != 1 else '-XX:+UseSerialGC', '-Xmx' + heap]
+        cmd = ['java', '-XX:+UseParallelGC' if workers != 1 else '-XX:+UseSerialGC', '-Xmx' + heap,
+               '-Djava.io.tmpdir=' + work]       # (TLC leaves an empty tlc-<n> directory in the JVM's tmpdir)
         cmd += list(jvm)
         cmd += ['-cp', _classpath(), 'tlc2.TLC', '-workers', str(workers), '-metadir',
                 os.path.join(work, 'states'), '-noGenerateSpecTE', '-config', cfg]
